@@ -1358,8 +1358,9 @@ SPECS += [NewOid, TpcBegin, TpcAbort, TpcFinish]
 class Restore(WriteSpec):
     """FileStorage.restore: stages exactly one record (oid, the GIVEN serial, prev = current committed record,
     tloc = transaction start) holding the data, or - when the hinted transaction holds an identical record - a back
-    pointer to it, or a zero pointer for an un-creation; and the oid counter covers the restored oid AS SOON AS the
-    call returns (C20: an allocation made before the vote must not hand the id out again).
+    pointer to it, or a zero pointer for an un-creation; a hint naming a transaction this storage does not have is
+    ignored (data in full); and the oid counter covers the restored oid AS SOON AS the call returns (C20: an
+    allocation made before the vote must not hand the id out again).
     ASSUMED at the call sites: _txn_find(tid, 0) returns the position of that transaction or raises UndoError;
     _data_find returns 0 or a record position (its own contract: contracts/recover.py)."""
     func = 'ZODB.FileStorage.FileStorage:FileStorage.restore'
@@ -1485,11 +1486,9 @@ class Restore(WriteSpec):
             Outcome('read-only', 'raise', ReadOnlyError, guard=ro, post=untouched),
             Outcome('wrong-transaction', 'raise', StorageTransactionError,
                     guard=z3.And(z3.Not(ro), z3.Not(same)), post=untouched),
+            # prev_txn is only a HINT (IStorageRestoreable; the comment in restore): when the transaction it names is
+            # not in this storage (packed away, or a partial copy) the record is written with its data in full
             Outcome('restored', guard=live, post=effect),
-            Outcome('hinted-transaction-missing', 'raise', UndoError, guard=live,
-                    post=lambda c, E, r: nothing_staged(c, E, r) + [
-                        ('only-when-the-hint-names-no-transaction',
-                         any(e[0] == 'hint-missing' for e in c.events))]),
         ]
 
 
